@@ -1,6 +1,10 @@
 """Per-profile tier budgets: number of seeded runs and wall-clock cap (budget exhaustion is not an error)."""
 
 TIERS = {
+    "finders": {
+        "quick": {"runs": 480, "budget_s": 80, "min_budget": 150},
+        "thorough": {"runs": 20000, "budget_s": 540, "min_budget": 300},
+    },
     "crash": {
         "quick": {"runs": 160, "budget_s": 80, "min_budget": 120},
         "thorough": {"runs": 4000, "budget_s": 540, "min_budget": 300},
